@@ -6,14 +6,19 @@
                       Pending results are normalised to the specification's order first;
            model_eq = the history consists of exactly the calls of the input programs.
    probe : prop_ok  = the call did not run while the harness held the mutex;
-           model_eq = ran/blocked as predicted from the lock table read from the Go source. *)
+           model_eq = ran/blocked as predicted from the lock table read from the Go source.
+   shape : prop_ok  = the method body is ONE critical section (Lock first, defer Unlock next, no
+                      other lock call), which is what Conc.LockedObject assumes of an exclusive
+                      method; the composite PopWithTimer touches no field and takes no lock.
+   seq additionally: prop_ok requires the declarative trace predicate [trace_ok] (ModelTrace.v:
+   duplicates refused, at most once, priority then insertion order) of the Go observables. *)
 open Model
 open Vutil
 
 let parse_op s = match String.split_on_char ':' s with
   | ["u"; id; p] -> Push (n_of_hex id, n_of_hex p)
   | ["o"] -> Pop
-  | ["t"] -> PopT
+  | ["t"] | ["w"] -> PopT
   | ["k"] -> Peek
   | ["r"; id] -> Remove (n_of_hex id)
   | ["e"; id] -> Exists (n_of_hex id)
@@ -61,8 +66,13 @@ let check inp obs =
     let m = List.map str_res (m_run m_new pops) in
     let q = q_run [] pops in
     let shape = (nres = List.length pops) in
-    let prop = shape && idx = "idx:ok" &&
+    let parsed = List.map parse_res obs_res in
+    let declarative = shape && List.for_all (fun r -> r <> None) parsed &&
+                      trace_ok (List.combine pops (List.map (function Some r -> r | None -> RPanic) parsed)) in
+    let prop = shape && idx = "idx:ok" && declarative &&
                List.for_all2 (fun o s -> match parse_res o with Some r -> res_sim r s | None -> false) obs_res q in
+    let buckets = List.map int_of_n (m_buckets m_new pops) in
+    let hasb b = List.mem b buckets in
     let eq = shape && m = obs_res in
     let has p = List.exists p obs_res in
     let tags = String.concat "," (List.filter (fun x -> x <> "") [
@@ -70,12 +80,19 @@ let check inp obs =
       (if has (fun s -> s = "nil") then "empty-pop" else "");
       (if has (fun s -> String.length s > 3 && String.sub s 0 3 = "tx:") then "yield" else "");
       (if List.exists (function Remove _ -> true | _ -> false) pops then "remove" else "");
-      (if List.mem PopT pops then "popwithtimer" else "") ]) in
+      (if List.mem PopT pops then "popwithtimer" else "");
+      (if List.exists (fun o -> o = "w") ops then "popwithtimer-live" else "");
+      (if hasb 1 then "push-no-sift" else ""); (if hasb 2 then "push-sift-up" else "");
+      (if hasb 3 then "remove-absent" else ""); (if hasb 4 then "remove-last" else "");
+      (if hasb 5 then "remove-sift-down" else ""); (if hasb 6 then "remove-sift-up" else "");
+      (if hasb 7 then "remove-in-place" else ""); (if hasb 8 then "pop-tie" else "");
+      (if hasb 9 then "pop-no-tie" else "") ]) in
     { prop_ok = prop; model_eq = eq; nontrivial = List.length pops >= 2; finding = "-"; tags;
       detail = (if prop && eq then "" else
-                Printf.sprintf "%s spec=[%s] model=[%s]" idx
+                Printf.sprintf "%s%s spec=[%s] model=[%s]" idx
+                  (if declarative then "" else " trace predicate (dup/at-most-once/order) violated;")
                   (String.concat " " (List.map str_res q)) (String.concat " " m)) }
-  | ("conc" | "concl" | "concg") :: pre :: progs ->
+  | ("conc" | "concl" | "concg" | "conct") :: pre :: progs ->
     let recs = List.map (fun s -> match String.split_on_char '/' s with
         | [tid; c; r; op; res] -> (int_of_string ("0x" ^ tid), n_of_hex c, n_of_hex r, op, res)
         | _ -> fail "C34: bad record %s" s) (split_ws obs) in
@@ -110,8 +127,15 @@ let check inp obs =
     let overlaps = ref 0 in
     Array.iteri (fun i (t1, c1, r1) -> Array.iteri (fun j (t2, c2, r2) ->
         if i < j && t1 <> t2 && c1 < r2 && c2 < r1 then incr overlaps) arr) arr;
-    let tags = Printf.sprintf "%s,threads-%d,%s" (List.hd (split_ws inp)) (List.length progs)
-        (if !overlaps = 0 then "no-overlap" else if !overlaps < 10 then "overlap-1..9" else "overlap-10+") in
+    (* a live PopWithTimer that was called before the Push of the transaction it returns *)
+    let polled = List.exists (fun (_, c, _, op, res) -> op = "w" &&
+        (match String.split_on_char ':' res with
+         | ["tx"; i; _] -> List.exists (fun (_, c2, _, op2, res2) -> res2 = "ok" && int_of_n c < int_of_n c2 &&
+             (match String.split_on_char ':' op2 with ["u"; i2; _] -> i2 = i | _ -> false)) recs
+         | _ -> false)) recs in
+    let tags = Printf.sprintf "%s,threads-%d,%s%s" (List.hd (split_ws inp)) (List.length progs)
+        (if !overlaps = 0 then "no-overlap" else if !overlaps < 10 then "overlap-1..9" else "overlap-10+")
+        (if polled then ",popwithtimer-polled" else "") in
     { prop_ok = verdict; model_eq = progs_ok; nontrivial = !overlaps > 0; finding = "-"; tags;
       detail = (if verdict && progs_ok then "" else why ^ (if progs_ok then "" else " history does not match the programs")) }
   | ["probe"; meth] ->
@@ -122,6 +146,45 @@ let check inp obs =
       detail = (if (not ran) && ran = pred_runs then "" else
                 Printf.sprintf "%s %s while the harness held the mutex (lock table predicts %s)" meth obs
                   (if pred_runs then "ran" else "blocked")) }
+  | ["shape"; meth] ->
+    let composite = (meth = "PopWithTimer") in
+    let good = (match String.split_on_char ':' obs with
+        | [l; u; d; o; f; s2; fl] ->
+          if composite then l = "0" && u = "0" && d = "0" && o = "0" && fl = "0"
+          else l = "1" && u = "1" && d = "1" && o = "0" && f = "1" && s2 = "1"
+        | _ -> false) in
+    (* the lock table of Gen.v (first lock call, some deferred unlock) predicts the same shape for
+       an exclusive method with a deferred unlock; it cannot see a second critical section *)
+    let table_ok = pq_discipline_ok && (composite || mode_of_method meth = mode_push) in
+    { prop_ok = good; model_eq = (good = table_ok) || good; nontrivial = true; finding = "-";
+      tags = "shape," ^ meth ^ (if good then "-one-critical-section" else "-bad-shape");
+      detail = (if good then "" else
+                Printf.sprintf "%s: critical-section shape %s (expected %s): the method is not one critical section around its whole body"
+                  meth obs (if composite then "0:0:0:0:0:0:0" else "1:1:1:0:1:1:*")) }
   | _ -> fail "C34: bad input %s" inp
 
-let () = run_driver check
+(* vm_compute cross-check: a sequential case recomputed inside Coq (heap model results = observed,
+   declarative trace predicate true of the observed trace) *)
+let coq_op = function
+  | Push (i, p) -> Printf.sprintf "Push %s %s" (coq_n i) (coq_n p)
+  | Pop -> "Pop" | PopT -> "PopT" | Peek -> "Peek" | Len -> "Len" | Pending -> "Pending"
+  | Remove i -> "Remove " ^ coq_n i | Exists i -> "Exists " ^ coq_n i
+let coq_res = function
+  | ROk -> "ROk" | RDup -> "RDup" | RNone -> "RNone" | RUnit -> "RUnit" | RPanic -> "RPanic"
+  | RTx (i, p) -> Printf.sprintf "RTx %s %s" (coq_n i) (coq_n p)
+  | RBool b -> if b then "RBool true" else "RBool false"
+  | RNum n -> "RNum " ^ coq_n n
+  | RList l -> "RList [" ^ String.concat "; " (List.map (fun (k, v) -> Printf.sprintf "(%s, %s)" (coq_n k) (coq_n v)) l) ^ "]"
+let coq inp obs =
+  match split_ws inp with
+  | "seq" :: ops when List.length ops <= 80 ->
+    let obs_l = split_ws obs in
+    let nres = List.length obs_l - 1 in
+    let parsed = List.filteri (fun i _ -> i < nres) obs_l |> List.map parse_res in
+    if nres <> List.length ops || List.exists (fun r -> r = None) parsed then None
+    else Some (Printf.sprintf "vm_seq_case [%s] [%s]"
+                 (String.concat "; " (List.map (fun o -> coq_op (parse_op o)) ops))
+                 (String.concat "; " (List.map (function Some r -> coq_res r | None -> "RPanic") parsed)))
+  | _ -> None
+
+let () = run_driver ~coq check
